@@ -104,6 +104,11 @@ func checkC05(c *Ctx) {
 		if !r.Conflict {
 			c.Inconclusive = append(c.Inconclusive, "corpus grammar "+g.Name+" has no conflict in the reference automaton")
 		}
+		if sj, err := c.simJob(t, g, r, "tables "+g.Name, SymRun{}); err == nil {
+			jobs = append(jobs, sj)
+		} else {
+			c.Inconclusive = append(c.Inconclusive, fmt.Sprintf("%s: table simulation: %v", g.Name, err))
+		}
 		for n := 0; n <= maxN; n++ {
 			jobs = append(jobs, Job{
 				Name:           fmt.Sprintf("lockstep %s N=%d", g.Name, n),
@@ -114,6 +119,34 @@ func checkC05(c *Ctx) {
 			})
 		}
 	}
+	nRand, randN := 2, 4
+	if !c.Quick() {
+		nRand, randN = 12, 6
+	}
+	for _, g := range RandomGrammars(int64(c.Seed)+1000, nRand, true) {
+		ga := g.WithRecordingActions()
+		t, err := c.parserTarget(ga, true, append(parserHarness, "genparser/c05.go")...)
+		if err != nil {
+			c.Notes = append(c.Notes, fmt.Sprintf("random grammar %s skipped (gocc refuses it, e.g. an accept/reduce conflict): %v", g.Name, firstLine(err.Error())))
+			continue
+		}
+		rr := withRefTables(t, g)
+		if sj, err := c.simJob(t, g, rr, "random-tables "+g.Name, SymRun{}); err == nil {
+			jobs = append(jobs, sj)
+		} else {
+			c.Inconclusive = append(c.Inconclusive, fmt.Sprintf("%s: table simulation: %v", g.Name, err))
+		}
+		for n := 0; n <= randN; n++ {
+			jobs = append(jobs, Job{
+				Name:           fmt.Sprintf("random-lockstep %s N=%d", g.Name, n),
+				Target:         t,
+				Run:            SymRun{Harness: "VerifC05Lockstep", Params: map[string]int{"N": n, "STEPS": 10*(n+1) + 10}, LoopBound: 10*(n+1) + 20, ForkFuncs: []string{"Parse", "VerifC05Lockstep", "verifRefRun"}},
+				Bounds:         fmt.Sprintf("random conflicting grammar %s (seed %d) through gocc -a: every sequence of %d tokens; grammar: %s", g.Name, c.Seed, n, oneLine(g.BNF(false))),
+				RequiredCovers: []string{"end"},
+			})
+		}
+	}
+	c.BoundsText = append(c.BoundsText, fmt.Sprintf("plus %d random conflicting grammars drawn with VERIF_SEED=%d (sampling on the grammar axis), lock-step up to %d tokens", nRand, c.Seed, randN))
 	c.kernelC05(&jobs)
 	c.BoundsText = append(c.BoundsText, fmt.Sprintf("pipeline: conflicting corpus grammars through gocc -a; all token sequences of length 0..%d; lock-step with /verif's own canonical LR(1) automaton resolved by the stated rule: same verdict and same reduction sequence", maxN))
 	c.RunJobs(filterJobs(jobs), 4)
@@ -133,6 +166,16 @@ func checkC07(c *Ctx) {
 		if err != nil {
 			c.Inconclusive = append(c.Inconclusive, err.Error())
 			continue
+		}
+		{
+			ts := *t
+			ts.Harness = append([]string{}, t.Harness...)
+			r := withRefTables(&ts, g)
+			if sj, err := c.simJob(&ts, g, r, "tables "+g.Name, SymRun{}); err == nil {
+				jobs = append(jobs, sj)
+			} else {
+				c.Inconclusive = append(c.Inconclusive, fmt.Sprintf("%s: table simulation: %v", g.Name, err))
+			}
 		}
 		for n := 0; n <= maxN; n++ {
 			jobs = append(jobs, Job{
@@ -274,6 +317,16 @@ func checkC02(c *Ctx) {
 			c.Inconclusive = append(c.Inconclusive, err.Error())
 			continue
 		}
+		{
+			ts := *t
+			ts.Harness = append([]string{}, t.Harness...)
+			r := withRefTables(&ts, g)
+			if sj, err := c.simJob(&ts, g, r, "tables "+g.Name, SymRun{}); err == nil {
+				jobs = append(jobs, sj)
+			} else {
+				c.Inconclusive = append(c.Inconclusive, fmt.Sprintf("%s: table simulation: %v", g.Name, err))
+			}
+		}
 		for n := 0; n <= maxN; n++ {
 			jobs = append(jobs, Job{
 				Name:           fmt.Sprintf("accept %s N=%d", g.Name, n),
@@ -284,6 +337,44 @@ func checkC02(c *Ctx) {
 			})
 		}
 	}
+	nRand, randN := 2, 3
+	if !c.Quick() {
+		nRand, randN = 12, 5
+	}
+	for _, g := range RandomGrammars(int64(c.Seed), nRand, false) {
+		ga := g.WithRecordingActions()
+		t, err := c.parserTarget(ga, true, append(parserHarness, "genparser/c05.go")...)
+		if err != nil {
+			// gocc disagrees with the reference construction about this grammar: that is C04's subject
+			c.Notes = append(c.Notes, fmt.Sprintf("random grammar %s skipped: %v", g.Name, err))
+			continue
+		}
+		rr := withRefTables(t, g)
+		if sj, err := c.simJob(t, g, rr, "random-tables "+g.Name, SymRun{}); err == nil {
+			jobs = append(jobs, sj)
+		} else {
+			c.Inconclusive = append(c.Inconclusive, fmt.Sprintf("%s: table simulation: %v", g.Name, err))
+		}
+		for n := 0; n <= randN; n++ {
+			jobs = append(jobs, Job{
+				Name:           fmt.Sprintf("random-lockstep %s N=%d", g.Name, n),
+				Target:         t,
+				Run:            SymRun{Harness: "VerifC05Lockstep", Params: map[string]int{"N": n, "STEPS": 10*(n+1) + 10}, LoopBound: 10*(n+1) + 20, ForkFuncs: []string{"Parse", "VerifC05Lockstep", "verifRefRun"}},
+				Bounds:         fmt.Sprintf("random conflict-free grammar %s (seed %d): every sequence of %d tokens, lock-step with the reference LR(1) machine; grammar: %s", g.Name, c.Seed, n, oneLine(g.BNF(false))),
+				RequiredCovers: []string{"end"},
+			})
+		}
+		if n := 3; true {
+			jobs = append(jobs, Job{
+				Name:           fmt.Sprintf("random-accept %s N=%d", g.Name, n),
+				Target:         t,
+				Run:            SymRun{Harness: "VerifC02Accept", Params: map[string]int{"N": n}, LoopBound: 64, LoopBounds: map[string]int{"Parse": 10*(n+1) + 20}, ForkFuncs: []string{"Parse", "VerifC02Accept"}},
+				Bounds:         fmt.Sprintf("random conflict-free grammar %s: every sequence of %d tokens against CYK", g.Name, n),
+				RequiredCovers: []string{"end"},
+			})
+		}
+	}
+	c.BoundsText = append(c.BoundsText, fmt.Sprintf("plus %d random conflict-free grammars drawn with VERIF_SEED=%d (sampling on the grammar axis, symbolic on the token axis): lock-step with the reference LR(1) machine up to %d tokens and CYK at 3 tokens", nRand, c.Seed, randN))
 	c.BoundsText = append(c.BoundsText, fmt.Sprintf("corpus grammars %d (conflict-free), real generated tables and Parse; token sequences of length 0..%d over the grammar's terminals, symbolic; oracle: CYK over /verif's own representation of the grammar", len(SynCorpus), maxN),
 		"outside the claim: grammars outside the corpus, longer inputs, scanners returning token types outside the terminal range")
 	c.RunJobs(filterJobs(jobs), 4)
@@ -304,4 +395,15 @@ func filterJobs(jobs []Job) []Job {
 		}
 	}
 	return js
+}
+
+func oneLine(s string) string {
+	return strings.Join(strings.Fields(s), " ")
+}
+
+func firstLine(s string) string {
+	if i := strings.IndexByte(s, '\n'); i >= 0 {
+		return s[:i]
+	}
+	return s
 }
